@@ -15,10 +15,10 @@ E1_ASSUMPTIONS = [
 ]
 
 
-def kani_part(pid, tier, seed, jobs, owner=None):
+def kani_part(pid, tier, seed, jobs, owner=None, only=None):
     import kani
     import props_kani
-    hs = [h for h in props_kani.PROPS.get(pid, []) if tier in h.tiers]
+    hs = [h for h in props_kani.PROPS.get(pid, []) if tier in h.tiers and (only is None or only(h))]
     if not hs:
         return [], 0.0
     log_dir = os.path.join(common.WORK_DIR, owner or pid, "kani-" + tier)
@@ -97,10 +97,13 @@ def run_property(pid, tier, seed, jobs):
     obligations = []
     assumptions = []
     extra = {}
-    if pid in ("C04", "C01"):
-        # C01's run-time half is the helper kernels the generated code calls: the C04 obligations are part of it
+    if pid in ("C04", "C01", "C06"):
+        # C01's run-time half is the helper kernels the generated code calls: the C04 obligations are part of it;
+        # C06's kernel is the agreement of the semantic core (what the const evaluator calls) with the run-time library
         import c04
         obs, ass, ex = c04.run(tier, seed, jobs, pid)
+        if pid == "C06":
+            obs = [o for o in obs if "parity" in o["id"] or o["id"] in ("V-encoder",)]
         obligations += obs
         assumptions += ass
         extra.update(ex)
@@ -115,7 +118,8 @@ def run_property(pid, tier, seed, jobs):
             assumptions += ass
             extra.update(ex)
     # C01's string / collection / range helpers are the C05 kernels
-    kobs, build_s = kani_part("C05" if pid == "C01" else pid, tier, seed, jobs)
+    kobs, build_s = kani_part("C05" if pid in ("C01", "C06") else pid, tier, seed, jobs,
+                              only=(lambda h: "_str_" in h.name) if pid == "C06" else None)
     if kobs:
         obligations += kobs
         assumptions += E1_ASSUMPTIONS
